@@ -149,6 +149,17 @@ def _hs_cuts(variant):
                    pre + 16, pre + 17, pre + L - 1, pre + L, pre + L + 1})
 
 
+
+def _feed(pr, view):
+    """dataReceived on the abstract stream.  The proxy stands for an immutable byte string that is concatenated, sliced,
+    compared and unpacked; a tree whose buffer handling does something else with its input (bytearray +=, memoryview,
+    ...) cannot be analysed through it: that is a limit of the harness, not a finding (the bytes family runs on real
+    byte strings)."""
+    try:
+        pr.dataReceived(view)
+    except (TypeError, AttributeError, NotImplementedError) as e:
+        raise HarnessError('the stream proxy does not support this tree\'s buffer handling: %s' % type(e).__name__)
+
 def _mk_proto(protocol):
     class Rec(protocol.BasicDBusProtocol):
         def __init__(self):
@@ -225,7 +236,7 @@ def build(family, p):
             try:
                 pos = 0
                 for r in reads:
-                    pr.dataReceived(StreamView(st, pos, pos + r))
+                    _feed(pr, StreamView(st, pos, pos + r))
                     pos = pos + r
             finally:
                 protocol.struct = saved
@@ -269,14 +280,15 @@ def build(family, p):
                     pr = Rec()
                     pr._authenticated = True
                     if pbuf > 0:
-                        pr._buffer = StreamView(st, 0, pbuf)
-                    if pbuf >= 16:
-                        pr._nextMsgLen = st.total[0]
+                        # arbitrary consistent pre-state: an incomplete first message of pbuf bytes already received
+                        _feed(pr, StreamView(st, 0, pbuf))
+                        if pr.got:
+                            raise HarnessError('pre-state: an incomplete message was delivered')
                     if mode == 0:
-                        pr.dataReceived(StreamView(st, pbuf, pbuf + a))
-                        pr.dataReceived(StreamView(st, pbuf + a, pbuf + a + b))
+                        _feed(pr, StreamView(st, pbuf, pbuf + a))
+                        _feed(pr, StreamView(st, pbuf + a, pbuf + a + b))
                     else:
-                        pr.dataReceived(StreamView(st, pbuf, pbuf + a + b))
+                        _feed(pr, StreamView(st, pbuf, pbuf + a + b))
                     prs.append(pr)
             finally:
                 protocol.struct = saved
@@ -284,8 +296,9 @@ def build(family, p):
             check(len(A.got) == len(B.got), 'two reads deliver a different number of messages than one read')
             for x, y in zip(A.got, B.got):
                 check(x.lo == y.lo and x.hi == y.hi, 'two reads deliver different bytes than one read')
-            check(len(A._buffer) == len(B._buffer), 'buffer differs after two reads vs one read')
-            check(A._nextMsgLen == B._nextMsgLen, 'pending length differs after two reads vs one read')
+            if hasattr(A, '_buffer') and hasattr(A, '_nextMsgLen'):
+                check(len(A._buffer) == len(B._buffer), 'buffer differs after two reads vs one read')
+                check(A._nextMsgLen == B._nextMsgLen, 'pending length differs after two reads vs one read')
             # and both are right
             _check_state(B, st, k, pbuf + a + b, 0)
             reached()
@@ -317,17 +330,13 @@ def _check_state(pr, st, k, pos, first):
         check(isinstance(raw, StreamView), 'message handed over is not stream bytes')
         check(raw.lo == lo and raw.hi == hi, 'message handed over with the wrong byte range')
     rest = pos - st.start[j]
-    check(len(pr._buffer) == rest, 'buffer does not hold exactly the undelivered remainder')
-    if rest > 0:
-        check(isinstance(pr._buffer, StreamView) and pr._buffer.lo == st.start[j],
-              'buffer does not start at the next message boundary')
-    if j < k:
-        if rest >= 16:
-            check(pr._nextMsgLen == st.total[j], 'pending message length is wrong')
-        else:
-            check(pr._nextMsgLen == 0, 'pending message length set without a complete fixed header')
-    else:
-        check(pr._nextMsgLen == 0, 'pending message length left set after the last message')
+    buf = getattr(pr, '_buffer', None)
+    if isinstance(buf, (StreamView, bytes)):
+        # bookkeeping is compared where this tree keeps it in the form the proxy understands; what the property fixes
+        # is the delivery above
+        check(len(buf) == rest, 'buffer does not hold exactly the undelivered remainder')
+        if rest > 0:
+            check(isinstance(buf, StreamView) and buf.lo == st.start[j], 'buffer does not start at the next message boundary')
 
 
 def _build_bytes(family, p):
